@@ -1005,7 +1005,13 @@ fn write_float_fract(mut num: f64, radix: usize, f: &mut Formatter<'_>) -> fmt::
 impl LowerHex for Number {
     fn fmt(&self, f: &mut Formatter<'_>) -> fmt::Result {
         match self {
-            Number::Fixnum(num) => fmt::LowerHex::fmt(num, f),
+            Number::Fixnum(num) => {
+                // sign and magnitude, not the two's complement bit pattern
+                if *num < 0 {
+                    write!(f, "-")?;
+                }
+                fmt::LowerHex::fmt(&num.unsigned_abs(), f)
+            }
             Number::Float(num) => {
                 if *num < 0_f64 {
                     write!(f, "-")?;
@@ -1014,7 +1020,14 @@ impl LowerHex for Number {
                 write_float_fract(*num, 16, f)
             }
             Number::BigInt(num) => fmt::LowerHex::fmt(num.as_ref(), f),
-            Number::Rational(num) => fmt::LowerHex::fmt(num, f),
+            Number::Rational(num) => {
+                if num.is_negative() {
+                    write!(f, "-")?;
+                }
+                let magnitude =
+                    Rational64::new_raw((*num.numer() as i64).abs(), *num.denom() as i64);
+                fmt::LowerHex::fmt(&magnitude, f)
+            }
         }
     }
 }
@@ -1022,7 +1035,13 @@ impl LowerHex for Number {
 impl Octal for Number {
     fn fmt(&self, f: &mut Formatter<'_>) -> fmt::Result {
         match self {
-            Number::Fixnum(num) => fmt::Octal::fmt(num, f),
+            Number::Fixnum(num) => {
+                // sign and magnitude, not the two's complement bit pattern
+                if *num < 0 {
+                    write!(f, "-")?;
+                }
+                fmt::Octal::fmt(&num.unsigned_abs(), f)
+            }
             Number::Float(num) => {
                 if *num < 0_f64 {
                     write!(f, "-")?;
@@ -1031,7 +1050,14 @@ impl Octal for Number {
                 write_float_fract(*num, 8, f)
             }
             Number::BigInt(num) => fmt::Octal::fmt(num.as_ref(), f),
-            Number::Rational(num) => fmt::Octal::fmt(num, f),
+            Number::Rational(num) => {
+                if num.is_negative() {
+                    write!(f, "-")?;
+                }
+                let magnitude =
+                    Rational64::new_raw((*num.numer() as i64).abs(), *num.denom() as i64);
+                fmt::Octal::fmt(&magnitude, f)
+            }
         }
     }
 }
@@ -1039,7 +1065,13 @@ impl Octal for Number {
 impl Binary for Number {
     fn fmt(&self, f: &mut Formatter<'_>) -> fmt::Result {
         match self {
-            Number::Fixnum(num) => fmt::Binary::fmt(num, f),
+            Number::Fixnum(num) => {
+                // sign and magnitude, not the two's complement bit pattern
+                if *num < 0 {
+                    write!(f, "-")?;
+                }
+                fmt::Binary::fmt(&num.unsigned_abs(), f)
+            }
             Number::Float(num) => {
                 if *num < 0_f64 {
                     write!(f, "-")?;
@@ -1048,7 +1080,14 @@ impl Binary for Number {
                 write_float_fract(*num, 2, f)
             }
             Number::BigInt(num) => fmt::Binary::fmt(num.as_ref(), f),
-            Number::Rational(num) => fmt::Binary::fmt(num, f),
+            Number::Rational(num) => {
+                if num.is_negative() {
+                    write!(f, "-")?;
+                }
+                let magnitude =
+                    Rational64::new_raw((*num.numer() as i64).abs(), *num.denom() as i64);
+                fmt::Binary::fmt(&magnitude, f)
+            }
         }
     }
 }
